@@ -118,18 +118,34 @@ def draw_program(cs, cfg):
     ops = []
     nops = cs.randint(3, cfg["max_ops"], "nops")
 
+    # most matrices of one program share a "home" shape (or its transpose), so that sums, differences and products
+    # of three and more operands - expression trees of depth >= 2 with mixed leaf kinds - are common, not rare
+    home = (cs.randint(1, 3, "home_p"), cs.randint(1, 3, "home_q"))
+
     def draw_mat(square=None, herm=False):
         b = BATCHES[cs.weighted([12, 4, 2, 2, 2, 2, 2, 1], "batch")]
-        p = cs.randint(1, 3, "p")
-        q = p if (square or herm) else (cs.randint(1, 3, "q") if not cs.bool("sq", 1, 2) else p)
+        if cs.bool("homeshape", 3, 4):
+            p, q = home if not cs.bool("hometransposed", 1, 6) else home[::-1]
+            q = p if (square or herm) else q
+        else:
+            p = cs.randint(1, 3, "p")
+            q = p if (square or herm) else (cs.randint(1, 3, "q") if not cs.bool("sq", 1, 2) else p)
         return {"batch": list(b), "p": p, "q": q, "seed": cs.draw(1000, "mseed"), "herm": bool(herm),
                 "scale": [1.0, 1e-9, 1e5, 0.0][cs.weighted([12, 2, 2, 1], "mscale")],
                 "spike": (P["dtype"] != "float32") and cs.bool("spike", 1, 8)}
 
+    npool_seen = 0
     for step in range(nops):
+        # an operator that was just built is, half of the time, used at once (otherwise most expressions are never
+        # applied to anything before the program ends)
+        fresh_op = len(pool) - 1 if (len(pool) > npool_seen and pool and not pool[-1]["leaf"]) else None
+        npool_seen = len(pool)
         if not pool:
             k = cs.weighted([5, 3, 0, 0, 0, 1], "op0")
+        elif fresh_op is not None and cs.bool("apply_fresh", 1, 2):
+            k = 3
         else:
+            fresh_op = None
             k = cs.weighted([3, 2, 6, 8, 1, 2], "op")
         if k == 0:      # instantiate a user class
             if inst and not (abst and cs.bool("abstract_inst", 1, 8)):
@@ -180,12 +196,37 @@ def draw_program(cs, cfg):
         elif k == 2:    # compose
             i = cs.draw(len(pool), "i")
             a = pool[i]
-            e = cs.weighted([4, 4, 3, 3, 1, 2, 2, 1, 1, 1, 2], "expr")
+            e = cs.weighted([4, 4, 3, 3, 1, 2, 2, 1, 1, 1, 2, 8], "expr")
             if a["kind"] == "dense" and not a.get("sym") and a["p"] == a["q"] and a["p"] > 1 and cs.bool("herm_claim", 1, 3):
                 # a dense non-Hermitian square operator times itself, claimed Hermitian: checkable, so rejected
                 ops.append({"op": "matmul_hermclaim", "i": i, "j": i, "valid": False})
                 continue
-            if e == 0:
+            if e == 11:
+                # a sum/difference of THREE operands in one go, left- or right-nested: a +- (b +- c), (a +- b) +- c
+                # over every mix of leaf kinds (bottom-up composition from the pool makes right-nested trees rare)
+                # every operand is drawn by KIND first (dense-wrapped / user class / anything), then among the pool
+                # entries of that kind, so that every mix of leaf kinds in every position is equally likely
+                def pick(cands_, tag):
+                    want = cs.draw(3, tag + "kind")
+                    sub_ = [j_ for j_ in cands_ if pool[j_]["kind"] == ("dense", "user")[want]] if want < 2 else []
+                    sub_ = sub_ or cands_
+                    return sub_[cs.draw(len(sub_), tag)]
+                i = pick(list(range(len(pool))), "ti")
+                a = pool[i]
+                cands = [j for j, b in enumerate(pool) if (b["p"], b["q"]) == (a["p"], a["q"])
+                         and bcast(a["batch"], b["batch"]) is not None]
+                j = pick(cands, "tj")
+                k2 = pick(cands, "tk")
+                bb = bcast(bcast(a["batch"], pool[j]["batch"]), pool[k2]["batch"])
+                if bcast(pool[j]["batch"], pool[k2]["batch"]) is None or bb is None:
+                    k2 = j
+                    bb = bcast(a["batch"], pool[j]["batch"])
+                ops.append({"op": "tree3", "i": i, "j": j, "k": k2, "s1": cs.draw(2, "s1"), "s2": cs.draw(2, "s2"),
+                            "right": cs.bool("rightnested", 1, 2), "valid": True})
+                pool.append({"p": a["p"], "q": a["q"], "batch": bb, "kind": "tree3", "leaf": False,
+                             "jac": a["jac"] or pool[j]["jac"] or pool[k2]["jac"],
+                             "taint": a.get("taint", False) or pool[j].get("taint", False) or pool[k2].get("taint", False)})
+            elif e == 0:
                 ops.append({"op": "H", "i": i, "valid": True})
                 pool.append({"p": a["q"], "q": a["p"], "batch": a["batch"], "kind": "H", "leaf": False, "jac": a["jac"], "taint": a.get("taint", False)})
             elif e in (1, 2, 3, 4):
@@ -243,7 +284,10 @@ def draw_program(cs, cfg):
                 ops.append({"op": "addnum", "i": i, "valid": False})
         elif k == 3:    # apply a product
             # prefer recently built operators
-            i = len(pool) - 1 - cs.draw(min(len(pool), 4), "ai") if cs.bool("recent", 2, 3) else cs.draw(len(pool), "ai")
+            if fresh_op is not None:
+                i = fresh_op
+            else:
+                i = len(pool) - 1 - cs.draw(min(len(pool), 4), "ai") if cs.bool("recent", 2, 3) else cs.draw(len(pool), "ai")
             a = pool[i]
             prod = PRODUCTS[cs.weighted([3, 3, 3, 3, 2], "prod")]
             rec = {"op": "apply", "i": i, "prod": prod, "nograd": cs.bool("nograd", 1, 3), "seed": cs.draw(1000, "xseed"),
@@ -611,6 +655,22 @@ def execute(P, pre):
                         res = A - B
                     else:
                         res = A.__rsub__(B)
+                elif k == "tree3":
+                    A, MA, dA = pool[op["i"]]
+                    B, MB, dB = pool[op["j"]]
+                    C3, MC, dC = pool[op["k"]]
+                    g1 = 1 if op["s1"] == 0 else -1
+                    g2 = 1 if op["s2"] == 0 else -1
+                    absmodel = absp[op["i"]] + absp[op["j"]] + absp[op["k"]]
+                    c1, c2 = "+-"[op["s1"]], "+-"[op["s2"]]
+                    if op["right"]:
+                        model, desc = MA + g1 * (MB + g2 * MC), "(%s)%s((%s)%s(%s))" % (dA, c1, dB, c2, dC)
+                        inner = (B + C3) if g2 == 1 else (B - C3)
+                        res = (A + inner) if g1 == 1 else (A - inner)
+                    else:
+                        model, desc = (MA + g1 * MB) + g2 * MC, "((%s)%s(%s))%s(%s)" % (dA, c1, dB, c2, dC)
+                        inner = (A + B) if g1 == 1 else (A - B)
+                        res = (inner + C3) if g2 == 1 else (inner - C3)
                 elif k in ("mul", "rmul"):
                     A, MA, dA = pool[op["i"]]
                     model, desc = MA * op["f"], "%s*(%s)" % (op["f"], dA)
